@@ -54,34 +54,6 @@ package fs
 //@   requires [regex-usable] len(re.flags) >= 1 && implies(re.flags[0] == regex.Default || re.flags[0] == regex.Invert, re.re != nil)
 //@   chaninv rawLines [raw-nonnil] elem != nil
 //@   chaninv lines [line-wellformed] elem != nil && elem.Content != nil
-//@ func (*readFile).filterWithLContext
-//@   requires [regex-usable] len(re.flags) >= 1 && implies(re.flags[0] == regex.Default || re.flags[0] == regex.Invert, re.re != nil)
-//@   chaninv rawLines [raw-nonnil] elem != nil
-//@   chaninv lines [line-wellformed] elem != nil && elem.Content != nil
-//@   chaninv ls.beforeBuf [raw-nonnil] open: elem != nil
-//@ func (*readFile).filterLineWithLContext
-//@   assigns f.stats, ls.maxCount, ls.maxReached, ls.after, *lines, *ls.beforeBuf
-//@   requires [ptrs] ltx != nil && ls != nil && re != nil && rawLine != nil
-//@   requires [regex-usable] len(re.flags) >= 1 && implies(re.flags[0] == regex.Default || re.flags[0] == regex.Invert, re.re != nil)
-//@   requires [before-buffer] implies(ls.processBefore, ls.beforeBuf != nil)
-//@   chaninv lines [line-wellformed] elem != nil && elem.Content != nil
-//@   chaninv ls.beforeBuf [raw-nonnil] open: elem != nil
-//@ func (*readFile).lContextNotMatched
-//@   requires [ptrs] ls != nil && rawLine != nil
-//@   requires [before-buffer] implies(ls.processBefore, ls.beforeBuf != nil)
-//@   chaninv lines [line-wellformed] elem != nil && elem.Content != nil
-//@   chaninv ls.beforeBuf [raw-nonnil] open: elem != nil
-//@   assigns ls.after, *ls.beforeBuf, *lines
-//@   ensures [never-nothing] result != nothing
-//@ func (*readFile).lContextProcessBefore
-//@   requires [ptrs] ls != nil
-//@   requires [before-buffer] ls.beforeBuf != nil
-//@   chaninv lines [line-wellformed] elem != nil && elem.Content != nil
-//@   chaninv ls.beforeBuf [raw-nonnil] open: elem != nil
-//@   assigns *ls.beforeBuf, *lines
-//@ func (*readFile).lContextProcessMaxCount
-//@   requires [ptrs] ls != nil
-//@   assigns ls.maxCount, ls.maxReached
 //@ func (readFile).Start
 //@   requires [regex-usable] len(re.flags) >= 1 && implies(re.flags[0] == regex.Default || re.flags[0] == regex.Invert, re.re != nil)
 //@   chaninv lines [line-wellformed] elem != nil && elem.Content != nil
@@ -100,3 +72,115 @@ package fs
 //@   assigns *arg3
 //@ iface FileReader.Retry
 //@   assigns nothing
+
+// ---- grep context state machine (C03) ----------------------------------------------
+// Lines are identified by their running number n = f.lineCount (after
+// updatePosition). Ghost variables of one filter activation:
+//   g_base      f.lineCount when the filter started (nothing emitted yet)
+//   g_E         number of the last line sent to `lines` (g_base if none)
+//   g_sent      how many lines were sent to `lines`
+//   g_selCount  how many selected lines were emitted
+//   g_lastSel   number of the last selected line that was emitted
+// A, B, M are after / before / max with negative values read as 0.
+// State invariant CTX(n), required and re-established per line:
+//   g_base <= g_E <= n, selCount within [0, M] when M > 0,
+//   no selected line yet: E == base, after == 0;
+//   otherwise E == min(n, lastSel + A) and after == max(0, lastSel + A - n);
+//   the before buffer holds min(B, n - E) lines (exactly the unemitted,
+//   unselected lines directly before n+1), maxCount == M - selCount, and
+//   maxReached <=> selCount == M with A > 0.
+
+//@ func (*readFile).filterWithLContext
+//@   requires [regex-usable] len(re.flags) >= 1 && implies(re.flags[0] == regex.Default || re.flags[0] == regex.Invert, re.re != nil)
+//@   chaninv rawLines [raw-nonnil] elem != nil
+//@   chaninv lines [line-wellformed] elem != nil && elem.Content != nil
+//@   chaninv ls.beforeBuf [raw-nonnil] open: seq: elem != nil
+//@   ghost-init g_base == f.lineCount
+//@   ghost-init g_E == f.lineCount
+//@   ghost-init g_sent == 0
+//@   ghost-init g_selCount == 0
+//@   ghost-init g_lastSel == f.lineCount
+//@   let A == max(ltx.AfterContext, 0)
+//@   let B == max(ltx.BeforeContext, 0)
+//@   let M == max(ltx.MaxCount, 0)
+//@   loop 1 invariant [ltx-unchanged] ltx.AfterContext == old(ltx.AfterContext) && ltx.BeforeContext == old(ltx.BeforeContext) && ltx.MaxCount == old(ltx.MaxCount) && g_base == old(f.lineCount)
+//@   loop 1 invariant [flags] ls.processAfter == (A > 0) && ls.processBefore == (B > 0) && ls.processMaxCount == (M > 0) && implies(B > 0, ls.beforeBuf != nil && ls.beforeBuf.cap == B)
+//@   loop 1 invariant [emitted-range] 0 <= g_base && g_base <= g_E && g_E <= f.lineCount && g_selCount >= 0 && implies(M > 0, g_selCount <= M && (g_selCount < M || A > 0))
+//@   loop 1 invariant [no-selection-yet] implies(g_selCount == 0, g_E == g_base && ls.after == 0)
+//@   loop 1 invariant [after-window] implies(g_selCount > 0, g_base < g_lastSel && g_lastSel <= f.lineCount && g_E == min(f.lineCount, g_lastSel + A) && ls.after == max(0, g_lastSel + A - f.lineCount))
+//@   loop 1 invariant [before-buffer] implies(B > 0, ls.beforeBuf.len == min(B, f.lineCount - g_E))
+//@   loop 1 invariant [max-countdown] implies(M > 0, ls.maxCount == M - g_selCount) && ls.maxReached == (M > 0 && g_selCount == M && A > 0)
+
+//@ func (*readFile).filterLineWithLContext
+//@   requires [ptrs] ltx != nil && ls != nil && re != nil && rawLine != nil
+//@   requires [regex-usable] len(re.flags) >= 1 && implies(re.flags[0] == regex.Default || re.flags[0] == regex.Invert, re.re != nil)
+//@   chaninv lines [line-wellformed] elem != nil && elem.Content != nil
+//@   chaninv ls.beforeBuf [raw-nonnil] open: seq: elem != nil
+//@   let n == f.lineCount + 1
+//@   let A == max(ltx.AfterContext, 0)
+//@   let B == max(ltx.BeforeContext, 0)
+//@   let M == max(ltx.MaxCount, 0)
+//@   let sel == reSel(re, content(rawLine))
+//@   let allowed == (M == 0 || g_selCount < M)
+//@   let inAfter == (g_selCount > 0 && n - g_lastSel <= A)
+//@   requires [flags] ls.processAfter == (A > 0) && ls.processBefore == (B > 0) && ls.processMaxCount == (M > 0) && implies(B > 0, ls.beforeBuf != nil && ls.beforeBuf.cap == B)
+//@   requires [emitted-range] 0 <= g_base && g_base <= g_E && g_E <= f.lineCount && g_selCount >= 0 && implies(M > 0, g_selCount <= M && (g_selCount < M || A > 0))
+//@   requires [no-selection-yet] implies(g_selCount == 0, g_E == g_base && ls.after == 0)
+//@   requires [after-window] implies(g_selCount > 0, g_base < g_lastSel && g_lastSel <= f.lineCount && g_E == min(f.lineCount, g_lastSel + A) && ls.after == max(0, g_lastSel + A - f.lineCount))
+//@   requires [before-buffer] implies(B > 0, ls.beforeBuf.len == min(B, f.lineCount - g_E))
+//@   requires [max-countdown] implies(M > 0, ls.maxCount == M - g_selCount) && ls.maxReached == (M > 0 && g_selCount == M && A > 0)
+//@   assigns f.stats, ls.maxCount, ls.maxReached, ls.after, *lines, *ls.beforeBuf, g_E, g_sent, g_selCount, g_lastSel
+//@   on-send lines effect g_E == elem.Count
+//@   on-send lines effect g_sent == g_sent + 1
+//@   at-send lines [in-file-order] elem.Count > g_E && elem.Count <= f.lineCount
+//@   effect g_selCount == ite(sel && allowed && !cancelled(), old(g_selCount) + 1, old(g_selCount))
+//@   effect g_lastSel == ite(sel && allowed && !cancelled(), n, old(g_lastSel))
+//@   ensures [line-counted] f.lineCount == n
+//@   ensures [selected-emitted-with-before-context] implies(!cancelled() && sel && allowed, g_E == n && g_sent == old(g_sent) + (n - max(old(g_E) + 1, n - B)) + 1)
+//@   ensures [abort-exactly-after-max-without-after] implies(!cancelled() && sel && allowed, (result == abortReading) == (M > 0 && old(g_selCount) + 1 == M && A == 0) && (result == abortReading || result == nothing))
+//@   ensures [selected-beyond-max-ends-output] implies(!cancelled() && sel && !allowed, result == abortReading && g_sent == old(g_sent) && g_E == old(g_E))
+//@   ensures [unselected-only-as-after-context] implies(!cancelled() && !sel, result == continueReading && g_sent == old(g_sent) + ite(inAfter, 1, 0) && g_E == ite(inAfter, n, old(g_E)))
+//@   ensures [cancel-aborts] implies(cancelled(), result == abortReading)
+//@   ensures [ctx-flags] ls.processAfter == (A > 0) && ls.processBefore == (B > 0) && ls.processMaxCount == (M > 0)
+//@   ensures [ctx-emitted-range] implies(!cancelled() && result != abortReading, 0 <= g_base && g_base <= g_E && g_E <= f.lineCount && g_selCount >= 0 && implies(M > 0, g_selCount <= M && (g_selCount < M || A > 0)))
+//@   ensures [ctx-no-selection-yet] implies(!cancelled() && result != abortReading && g_selCount == 0, g_E == g_base && ls.after == 0)
+//@   ensures [ctx-after-window] implies(!cancelled() && result != abortReading && g_selCount > 0, g_base < g_lastSel && g_lastSel <= f.lineCount && g_E == min(f.lineCount, g_lastSel + A) && ls.after == max(0, g_lastSel + A - f.lineCount))
+//@   ensures [ctx-before-buffer] implies(!cancelled() && result != abortReading && B > 0, ls.beforeBuf.len == min(B, f.lineCount - g_E))
+//@   ensures [ctx-max-countdown] implies(!cancelled() && result != abortReading, implies(M > 0, ls.maxCount == M - g_selCount) && ls.maxReached == (M > 0 && g_selCount == M && A > 0))
+
+//@ func (*readFile).lContextNotMatched
+//@   requires [ptrs] ls != nil && rawLine != nil
+//@   requires [before-buffer] implies(ls.processBefore, ls.beforeBuf != nil && ls.beforeBuf.cap >= 1 && ls.beforeBuf.len <= ls.beforeBuf.cap)
+//@   requires [order] f.lineCount > g_E
+//@   chaninv lines [line-wellformed] elem != nil && elem.Content != nil
+//@   chaninv ls.beforeBuf [raw-nonnil] open: seq: elem != nil
+//@   assigns ls.after, *ls.beforeBuf, *lines, g_E, g_sent
+//@   on-send lines effect g_E == elem.Count
+//@   on-send lines effect g_sent == g_sent + 1
+//@   at-send lines [in-file-order] elem.Count > g_E && elem.Count <= f.lineCount
+//@   ensures [never-nothing] result == continueReading || result == abortReading
+//@   ensures [cancel-aborts] (result == abortReading) == cancelled()
+//@   ensures [after-context-line] implies(!cancelled() && old(ls.processAfter) && old(ls.after) > 0, g_E == f.lineCount && g_sent == old(g_sent) + 1 && ls.after == old(ls.after) - 1 && implies(ls.processBefore, ls.beforeBuf.len == old(ls.beforeBuf.len)))
+//@   ensures [buffered-otherwise] implies(!cancelled() && !(old(ls.processAfter) && old(ls.after) > 0), g_E == old(g_E) && g_sent == old(g_sent) && ls.after == old(ls.after) && implies(ls.processBefore, ls.beforeBuf.len == min(ls.beforeBuf.cap, old(ls.beforeBuf.len) + 1)))
+
+//@ func (*readFile).lContextProcessBefore
+//@   requires [ptrs] ls != nil
+//@   requires [before-buffer] ls.beforeBuf != nil && ls.beforeBuf.len >= 0
+//@   requires [order] f.lineCount - ls.beforeBuf.len > g_E && ls.beforeBuf.len < f.lineCount
+//@   chaninv lines [line-wellformed] elem != nil && elem.Content != nil
+//@   chaninv ls.beforeBuf [raw-nonnil] open: seq: elem != nil
+//@   assigns *ls.beforeBuf, *lines, g_E, g_sent
+//@   on-send lines effect g_E == elem.Count
+//@   on-send lines effect g_sent == g_sent + 1
+//@   at-send lines [in-file-order] elem.Count > g_E && elem.Count < f.lineCount
+//@   ensures [cancel-aborts] (result == abortReading) == cancelled() && (result == abortReading || result == nothing)
+//@   ensures [block-emitted] implies(!cancelled(), ls.beforeBuf.len == 0 && g_sent == old(g_sent) + old(ls.beforeBuf.len) && g_E == ite(old(ls.beforeBuf.len) > 0, f.lineCount - 1, old(g_E)))
+//@   loop 1 invariant [countdown] !cancelled() && i == ls.beforeBuf.len && i >= 0 && i <= old(ls.beforeBuf.len) && g_sent == old(g_sent) + (old(ls.beforeBuf.len) - i) && g_E == ite(i == old(ls.beforeBuf.len), old(g_E), f.lineCount - i - 1)
+
+//@ func (*readFile).lContextProcessMaxCount
+//@   requires [ptrs] ls != nil
+//@   assigns ls.maxCount, ls.maxReached
+//@   ensures [no-cancel] cancelled() == old(cancelled())
+//@   ensures [countdown] ls.maxCount == old(ls.maxCount) - 1
+//@   ensures [abort-or-flag] (result == abortReading) == (ls.maxCount == 0 && (!ls.processAfter || ls.after == 0)) && (result == abortReading || result == nothing)
+//@   ensures [max-reached] ls.maxReached == (old(ls.maxReached) || (ls.maxCount == 0 && ls.processAfter && ls.after != 0))
